@@ -309,9 +309,21 @@ def bounded(tier, seed):
         ncf2ffi1001(sf, os.path.join(d_, 'short_icartt')).close()
         pool['short_icartt'] = ('ffi1001', os.path.join(d_, 'short_icartt'))
 
+        # HDF5-based netCDF files without suffix: a good one and a damaged one (cut short; the signature is intact)
+        d_ = os.path.join(tmp, 'pool_h5')
+        os.makedirs(d_)
+        ds = netCDF4.Dataset(os.path.join(d_, 'h5_good'), 'w', format='NETCDF4')
+        ds.createDimension('x', 3)
+        ds.createVariable('x', 'f', ('x',))[:] = [1, 2, 3]
+        ds.close()
+        raw5 = open(os.path.join(d_, 'h5_good'), 'rb').read()
+        open(os.path.join(d_, 'h5_damaged'), 'wb').write(raw5[:max(64, len(raw5) // 3)])
+        pool['h5_good'] = ('netcdf', os.path.join(d_, 'h5_good'))
+        damaged = os.path.join(d_, 'h5_damaged')
+
         def same_content(a, e):
-            if type(a) is not type(e):
-                return 'reader %s, with the format named %s' % (type(a).__name__, type(e).__name__)
+            # (the reader CLASS may differ -- a specialised netCDF reader registered earlier claims plain netCDF files --: the property
+            # speaks of the dimensions and the variable data presented)
             if {k: len(v) for k, v in a.dimensions.items()} != {k: len(v) for k, v in e.dimensions.items()}:
                 return 'dimensions differ'
             if list(a.variables.keys()) != list(e.variables.keys()):
@@ -325,12 +337,39 @@ def bounded(tier, seed):
             def t_named(fmt=fmt, path=path):
                 return same_content(pncopen(path), pncopen(path, format=fmt))
             run.case('C15:auto-detected = format named (%s)' % fmt, nm, t_named)
-        base2 = {nm: getreader(pth) for nm, (fmt, pth) in pool.items()}
+        def answer(pth):
+            try:
+                return getreader(pth)
+            except Exception as e_:
+                return type(e_).__name__
+        base2 = {nm: answer(pth) for nm, (fmt, pth) in pool.items()}
+        base_damaged = answer(damaged)
+        def fresh_process(order):
+            """reader names answered for the paths, in this order, by a FRESH interpreter (class-level caches start empty)"""
+            import subprocess, sys, json as js
+            code = ("import sys, json, warnings\nwarnings.simplefilter('ignore')\nfrom PseudoNetCDF import getreader\nout = []\n"
+                    "for p in sys.argv[1:]:\n    try:\n        out.append(getreader(p).__name__)\n    except Exception as e:\n        out.append('raises ' + type(e).__name__)\n"
+                    "print(json.dumps(out))\n")
+            env = dict(os.environ, PYTHONPATH=os.path.join(os.environ.get('VERIF_REPO', '/repo'), 'src'), PYTHONDONTWRITEBYTECODE='1')
+            r = subprocess.run([sys.executable, '-c', code] + list(order), capture_output=True, text=True, env=env, timeout=120)
+            return js.loads(r.stdout.strip().splitlines()[-1])
+
+        def t_h5():
+            # the answer for an HDF5-based file must not depend on which HDF5-based file the process looked at first
+            good = pool['h5_good'][1]
+            a = fresh_process([good, damaged, good])
+            b = fresh_process([damaged, good, damaged])
+            if not (a[0] == a[2] == b[1]):
+                return 'the reader for the good HDF5-based file depends on history: %r when it is looked at first, %r after the damaged one' % (a[0], b[1])
+            if not (b[0] == b[2] == a[1]):
+                return 'the answer for the damaged HDF5-based file depends on history: %r when it is looked at first, %r after the good one' % (b[0], a[1])
+            return None
+        run.case('C15:history over a good and a damaged HDF5-based file (fresh processes)', 'both orders', t_h5)
         for a_, b_ in itertools.permutations(list(pool)[::2] + ['short_icartt'], 2):
             def t_hist(a_=a_, b_=b_):
                 for nm in (a_, b_, a_):
                     pncopen(pool[nm][1])
-                got = {nm: getreader(pth) for nm, (fmt, pth) in pool.items()}
+                got = {nm: answer(pth) for nm, (fmt, pth) in pool.items()}
                 diff = [nm for nm in pool if got[nm] is not base2[nm]]
                 if diff:
                     return 'after opening %s, %s, %s getreader answers %s for %s (it answered %s before)' % (a_, b_, a_, got[diff[0]].__name__, diff[0], base2[diff[0]].__name__)
